@@ -204,9 +204,21 @@ def run(chk):
                 problems.append("message %s is not key[i]*h*weight" % sym.show(mess))
             row3 = en["args"][0]
             hl = en["loops"][2]
+            rb_, ro_ = sym.ptr_split(row3)
+            if rb_[0] == "fld" and rb_[2] == "ks0_raw":
+                # the row reached through the raw array: ks[i][j] = ks0_raw + (i*t + j)*base (the constructor's tables, R5), so
+                # &ks0_raw[(i*t + j)*base + h] is &ks[i][j][h]
+                K_ = rb_[1]
+                t_f, b_f, bb_f = sym.fld(K_, "t"), sym.fld(K_, "base"), sym.fld(K_, "basebit")
+                ro2 = sym.rewrite(sym.trip_counts_nonneg(ro_), {("op", "<<", I(1), bb_f): b_f})
+                want_off = sym.add(sym.mul(sym.add(sym.mul(gi, t_f), gj), b_f), gh)
+                if ro2 == want_off:
+                    row3 = sym.addr(sym.idx(sym.idx(sym.idx(sym.fld(K_, "ks"), gi), gj), gh))
             if not (row3[0] == "addr" and row3[1][0] == "idx" and row3[1][2] == gh and row3[1][1][0] == "idx" and row3[1][1][2] == gj
                     and row3[1][1][1][0] == "idx" and row3[1][1][1][2] == gi):
-                problems.append("row operand %s is not [i][j][h]" % sym.show(row3))
+                # a row reached some other way (a pointer walking ks0_raw whose progress is not in closed form, ...): the rule
+                # compares subscripts [i][j][h]; anything else is undecided here, not a violation
+                chk.broken("%s: row operand %s is not of the form [i][j][h]" % (gname, sym.show(row3)[:120]))
             lo_h = sym.const_value(hl["lo"])
             if lo_h == 1:
                 row0 = row3[1][1] if row3[0] == "addr" else None          # ks[i][j] == &ks[i][j][0]
@@ -235,6 +247,11 @@ def run(chk):
         r, k, s = [p["n"] for p in e.params]
         triv = [p for p in eps if p["kind"] == "call" and p["name"] == "lweNoiselessTrivial"]
         tr = [p for p in eps if p["kind"] == "call" and p["name"] == "lweKeySwitchTranslate_fromArray"]
+        if len(tr) != 1 or len(triv) != 1:
+            # the translation written out in the entry point (or split over helpers): its digit extraction is not the function R1
+            # decides, and the rule does not model it here -- undecided, not a violation
+            chk.broken("lweKeySwitch does not consist of one lweNoiselessTrivial and one lweKeySwitchTranslate_fromArray call (%d/%d): "
+                       "an entry point with its own digit extraction is not modelled" % (len(triv), len(tr)))
         ok = len(triv) == 1 and len(tr) == 1 and triv[0]["line"] < tr[0]["line"] and \
             triv[0]["args"][:3] == [sym.sym(r), P(s, "b"), P(k, "out_params")] and \
             tr[0]["args"] == [sym.sym(r), P(k, "ks"), P(k, "out_params"), P(s, "a"), P(k, "n"), P(k, "t"), P(k, "basebit")]
